@@ -106,6 +106,9 @@ def _generate(rng, tier):
                     positions.append(([i, "k"], "keyleaf", kp))
                     pairs.append([{"$r": kp}, it])
                 items = {"$map": pairs}
+                if rng.random() < 0.35:
+                    # the first alternative is a sequence (it would take the mapping by wrapping it)
+                    t[1] = [rng.choice(["list", "tup"]), [s1]]
                 if rng.random() < 0.5:
                     # ... and the policy for keys is the only one that is on
                     plan["policies"] = {"invalid_items": "throw", "invalid_values": "throw", "invalid_keys": rng.choice(["exclude", "preserve"])}
@@ -401,6 +404,13 @@ def _scalar_alone(t, v):
         return FAIL
 
 
+_KIND_TYPE = {"list": list, "tup": tuple, "set": set, "fset": frozenset, "dict": dict}
+
+
+def _same_kind(t, v):
+    return t[0] in _KIND_TYPE and isinstance(v, _KIND_TYPE[t[0]])
+
+
 def ref(t, v, pol):
     """The statement, level by level. v is the built python input."""
     if tdsl.is_scalar(t) or t == ["disc"]:
@@ -414,17 +424,20 @@ def ref(t, v, pol):
             return fits[0]
         if fits:
             return SKIP
-        # no alternative fits as it is: like a union, the one that fits under the policies (if it is the only one)
-        fits = [r for r in (ref(b, v, pol) for b in t[1:]) if r is not FAIL]
+        # no alternative fits as it is: like a union, the one that fits under the policies (if it is the only one);
+        # only the alternatives of the value's own kind are in question when there are any
+        alts = [b for b in t[1:] if _same_kind(b, v)] or t[1:]
+        fits = [r for r in (ref(b, v, pol) for b in alts) if r is not FAIL]
         return fits[0] if len(fits) == 1 else (FAIL if not fits else SKIP)
     if k == "union":
-        # the first alternative that fits as it is (no element offending) wins; only when none does, the policies apply
+        # the first alternative that fits as it is (no element offending) wins; only when none does, the policies apply -
+        # first to the alternatives of the value's own kind (a sequence would take anything by wrapping it)
         strict = {"invalid_items": "throw", "invalid_keys": "throw", "invalid_values": "throw"}
         for b in t[1:]:
             r = ref(b, v, strict)
             if r is not FAIL:
                 return r
-        for b in t[1:]:
+        for b in sorted(t[1:], key=lambda b_: not _same_kind(b_, v)):
             r = ref(b, v, pol)
             if r is not FAIL:
                 return r
@@ -433,6 +446,8 @@ def ref(t, v, pol):
         return None if v is None else ref(t[1], v, pol)
     if k in ("list", "set", "fset", "tup"):
         out = []
+        if isinstance(v, dict):
+            v = [v]     # (a mapping given for a sequence is one item)
         for e in v:
             r = ref(t[1], e, pol)
             if r is FAIL:
